@@ -270,8 +270,10 @@ pub fn gen(r: &mut Rng, thorough: bool) -> Vec<(String, String)> {
                 let d = if (t - o).norm_squared() == 0.0 { pb - pa } else { t - o }; (o, d * if lat { dir_scale(r, true) } else { 1.0 })
             } else if kind == 7 { // parallel to the plane, off it
                 let o = bary(r, false) + nrm * if lat { 0.5 } else { r.uniform(-1.0, 1.0) }; let d = (pb - pa) * r.uniform(-1.0, 1.0) + (pc - pa) * r.uniform(0.1, 1.0); (o, d)
-            } else if kind == 8 { // origin on the triangle
-                { let e0 = r.bool(); (bary(r, e0), rand_dir3(r, lat) * dir_scale(r, lat)) }
+            } else if kind == 8 { // origin on the triangle (lattice: strictly interior, exactly in the plane; both sides)
+                if lat { let w = *r.pick(&[(0.25, 0.25, 0.5), (0.5, 0.25, 0.25), (0.25, 0.5, 0.25)]);
+                         (P3::from(pa.coords * w.0 + pb.coords * w.1 + pc.coords * w.2), rand_dir3(r, true) * dir_scale(r, true)) }
+                else { let e0 = r.bool(); (bary(r, e0), rand_dir3(r, lat) * dir_scale(r, lat)) }
             } else { (d3::gen_p(r, lat, 10.0), rand_dir3(r, lat) * dir_scale(r, lat)) };
             let tri = Triangle::new(pa, pb, pc);
             let t0 = tri.cast_local_ray(&Ray::new(o, d), f64::MAX, solid);
